@@ -698,10 +698,16 @@ def make_handler(rt):
             kind = spec[2] if len(spec) > 2 else 'T'
             ptr = ptrs[nm]
             es = esz(rt, kind)
-            iswork = nm in WORKSIZE.values()
+            # work arrays whose size is an argument of this routine
+            sizep = [w for w, a in WORKSIZE.items() if a == nm and w in p]
+            iswork = bool(sizep)
             if query:
                 if not iswork:
-                    continue      # not referenced in a workspace query
+                    # not referenced in a workspace query (this includes
+                    # rwork/iwork arrays of fixed documented size, e.g. RWORK
+                    # of ZHEEV, IWORK of DSYEVX/DGESDD: the reference
+                    # routines return right after the argument checks)
+                    continue
                 elems = z3.IntVal(1)
             else:
                 elems = fp(p)
@@ -724,9 +730,19 @@ def make_handler(rt):
                 ex.trusted.add('assumption: the optimal workspace size '
                                'returned by a LAPACK query is in [1, '
                                'INT_MAX]')
+                # the optimal size is a valid size for the same arguments:
+                # at least the documented minimum (ASSUMPTION, listed)
+                lo = z3.IntVal(1)
+                if sizep[0] in rt.minwork:
+                    lo = zmax(lo, rt.minwork[sizep[0]](p))
+                    ex.trusted.add('assumption: the optimal workspace size '
+                                   'returned by a LAPACK query is at least '
+                                   'the documented minimum for the same '
+                                   'arguments')
+                st.pc.append(w >= z3.ToReal(lo))
                 if kind == 'I':
                     wi = ex.fresh_int('optimal_' + nm, 'int')
-                    st.pc.append(z3.And(wi.t >= 1))
+                    st.pc.append(z3.And(wi.t >= 1, wi.t >= lo))
                     try:
                         ex.store_through(ptr, wi, st, node)
                     except Unsupported:
